@@ -46,6 +46,11 @@ func VerifBindStatus(arg string) {
 				ttl = vInt64("ttl_"+tag, 1, 3600)
 			}
 			callsBefore := m.leaseCalls
+			leasesBefore := len(m.leases)
+			boundBefore := int64(0)
+			if kv, ok := m.kv[vStatusKey]; ok {
+				boundBefore = kv.lease
+			}
 			err := e.BindStatus(ctx, vEntityKey, vStatusKey, v, ttl)
 			faulted := m.leaseFailAt > callsBefore && m.leaseFailAt <= m.leaseCalls
 			vObserve("report_"+tag+"_failed", err != nil)
@@ -77,10 +82,27 @@ func VerifBindStatus(arg string) {
 			case ttl > 0 && !entity:
 				vCover("report-for-a-missing-entity", true)
 				vAssert("C25/report-for-a-missing-entity-is-refused", err != nil)
+				// a refused report leaves no fresh lease behind
+				vAssert("C25/refused-report-leaks-no-lease", len(m.leases) == leasesBefore)
 			default:
 				vAssert("C25/report-for-an-existing-entity-is-accepted", err == nil)
 				if has && val == v {
 					vCover("same-status-reported-again", true)
+				}
+				// the status is bound to exactly one live lease (or to none for TTL zero), and a
+				// report adds at most the lease the status is now bound to
+				kvNow := m.kv[vStatusKey]
+				if ttl > 0 {
+					_, live := m.leases[kvNow.lease]
+					vAssert("C25/status-is-bound-to-a-live-lease", kvNow.lease != 0 && live)
+					if kvNow.lease == boundBefore {
+						vAssert("C25/renewing-report-leaks-no-lease", len(m.leases) == leasesBefore)
+					} else {
+						vAssert("C25/rebinding-report-adds-only-the-new-lease", len(m.leases) == leasesBefore+1)
+					}
+				} else {
+					vAssert("C25/ttl-zero-detaches-the-status", kvNow.lease == 0)
+					vAssert("C25/ttl-zero-report-leaks-no-lease", len(m.leases) == leasesBefore)
 				}
 				has, val = true, v
 				if ttl > 0 {
